@@ -48,6 +48,22 @@ func (P *Prog) EnumSwitches(fn *ssa.Function) []*enumSwitch {
 	// an if / else-if chain that compares one expression of an enum type with constants is the same decision written
 	// differently: it is read as a switch with the final else as default
 	inChain := map[*ast.IfStmt]bool{}
+	restAfter := map[*ast.IfStmt][]ast.Stmt{}
+	ast.Inspect(body, func(n ast.Node) bool {
+		var list []ast.Stmt
+		switch x := n.(type) {
+		case *ast.BlockStmt:
+			list = x.List
+		case *ast.CaseClause:
+			list = x.Body
+		}
+		for i, st := range list {
+			if ifs, ok := st.(*ast.IfStmt); ok {
+				restAfter[ifs] = list[i+1:]
+			}
+		}
+		return true
+	})
 	ast.Inspect(body, func(n ast.Node) bool {
 		ifs, ok := n.(*ast.IfStmt)
 		if !ok || inChain[ifs] {
@@ -114,6 +130,13 @@ func (P *Prog) EnumSwitches(fn *ssa.Function) []*enumSwitch {
 		}
 		if arms < 2 || named == nil {
 			return true
+		}
+		if !es.HasDefault {
+			// a chain of returning arms without an else: what follows the chain in its block is the default
+			if rest, ok := restAfter[ifs]; ok {
+				es.HasDefault = true
+				es.ErrDefault = clauseFails(rest)
+			}
 		}
 		all := enumConsts(named)
 		if len(all) < 2 {
